@@ -146,8 +146,7 @@ ikesa.traceback = _ModProxy(_real_traceback, print_exc=_print_exc)
 _ORDERS = {
     'secp256r1': 0xFFFFFFFF00000000FFFFFFFFFFFFFFFFBCE6FAADA7179E84F3B9CAC2FC632551,
     'secp384r1': int('FFFFFFFFFFFFFFFFFFFFFFFFFFFFFFFFFFFFFFFFFFFFFFFFC7634D81F4372DDF581A0DB248B0A77AECEC196ACCC52973', 16),
-    'secp521r1': int('01FFFFFFFFFFFFFFFFFFFFFFFFFFFFFFFFFFFFFFFFFFFFFFFFFFFFFFFFFFFFFFFFFFFFFFFFFFFFFFFFFFFFFFFFFFFFFFFFFA'
-                     '51868783BF2F966B7FCC0148F709A5D03BB5C9B8899C47AEBB6FB71E91386409', 16),
+    'secp521r1': int('01FF' + 'FFFFFFFF' * 7 + 'FFFFFFFA51868783BF2F966B7FCC0148F709A5D03BB5C9B8899C47AEBB6FB71E91386409', 16),
 }
 
 FORCED_DH_PRIVATE = []   # checks may push exponents here (consumed first), C04 leading-zero cases
